@@ -23,7 +23,7 @@ def channelize(self, x, cache=True):
     if cache:
         if self.cache is not None:
             x = xp.concatenate([self.cache, x])
-        self.cache = x[-self.num_taps * self.num_branches:]
+        self.cache = xp.copy(x[-self.num_taps * self.num_branches:])      # the filterbank's own copy of the tail
     x = pfb_frontend(x, self.window, self.num_taps, self.num_branches)
     X_pfb = xp.fft.fft(x, self.num_branches, axis=1)[:, 0:self.num_branches // 2] / self.num_branches**0.5
     return X_pfb
@@ -160,6 +160,14 @@ def run(ctx):
     ctx.ob('WHOWRITES', 'PolyphaseFilterbank.cache is written only by __init__, _reset_cache and channelize', cls.qual,
            not extra, {'writers': sorted(w), 'unexpected': sorted(extra)},
            node=(list(extra.values())[0] if extra else None), construct='.cache writers')
+    # the carried-over window must be the filterbank's own copy: a view of the caller's chunk would change when the caller
+    # refills its buffer for the next chunk, and the chunked result would no longer equal the one-shot result
+    from vstatic.effects import summaries
+    esc = summaries(ctx.prog)[ch.qual]['escapes']
+    held = [(pn, tgt) for pn, lst in esc.items() for tgt, _ in lst if pn != 'self']
+    ctx.ob('ALIASINPLACE', 'channelize keeps no view of the caller\'s array between calls (the cached tail is a copy)', ch, not held,
+           {'parameter_stored_into': held}, node=(esc[held[0][0]][0][1] if held else ch.node),
+           construct=(ast.unparse(esc[held[0][0]][0][1])[:80] if held else 'self.cache = <copy>'))
     mod = ctx.prog.module('voltage.polyphase_filterbank')
     mut_globals = [k for k, v in mod.globals.items() if isinstance(v, (ast.List, ast.Dict, ast.Set))]
     cls_state = [ast.unparse(s)[:60] for s in cls.node.body if isinstance(s, ast.Assign)]
